@@ -2001,6 +2001,94 @@ def run_oracle(ck):
     ck.cov["oracle"] = stats
 
 
+ARGDEF_ROUTES = ["arguments_dict", "arguments", "enum_arguments"]
+ARGDEF_SHAPES = [[], [1], [0], [1, 1], [2], [0, 3]]
+ARGDEF_DTYPES = ["float32", "int64", "bool", "str", "float16", "uint8", "float64"]
+
+
+def argdef_case(case):
+    """An argument default (the array handed to `arguments_dict` / `arguments` / `enum_arguments`) must keep its exact
+    shape - `()` stays `()`, `(1,)` stays `(1,)`, empty stays empty - in the Var's type, in the graph input's type and
+    in the initializer of the built model (both `spox.build` and `results().with_arguments().to_onnx_model()`)."""
+    import numpy as np
+
+    import spox
+    import spox.opset.ai.onnx.v17 as op
+    from spox import Tensor
+
+    G = _imp("spox._graph")
+    fn = getattr(G, case["route"], None) if G is not None else None
+    if fn is None:
+        return [("unobservable", f"spox._graph.{case['route']} is not there")]
+    d, shape = case["dtype"], list(case["shape"])
+    n = numel(shape)
+    if d == "str":
+        arr = np.array(["ü%d" % i for i in range(n)], dtype=np.str_).reshape(shape) if n else np.zeros(shape, dtype="<U2")
+    elif d == "bool":
+        arr = (np.arange(n) % 2 == 0).reshape(shape)
+    else:
+        arr = (np.arange(n) + 3).astype(np_dtype(d)).reshape(shape)
+    try:
+        if case["route"] == "arguments_dict":
+            var, name = fn(x=arr)["x"], "x"
+        elif case["route"] == "arguments":
+            (var,), name = fn(x=arr), "x"
+        else:
+            (var,), name = fn(arr, prefix="x"), "x0"
+        y = op.identity(var)
+        if case["build"] == "build":
+            mb = spox.build({name: var}, {"y": y}).SerializeToString()
+        else:
+            results = getattr(G, "results")
+            mb = results(y=y).with_arguments(var).to_onnx_model().SerializeToString()
+    except Exception as e:  # noqa: BLE001
+        return [("raises", f"{case['route']}({d}{shape}) / {case['build']} raised {type(e).__name__}: {str(e)[:160]}")]
+    probs = []
+    want = Tensor(np_dtype(d) if d != "str" else np.dtype(str), tuple(shape))
+    if var.type != want:
+        probs.append(("vartype", f"Var.type is {var.type}, the default has {want}"))
+    g = W.graph_of_model(mb)
+    gi = next((i for i in W.graph_inputs(g) if i["name"] == name), None)
+    if gi is None:
+        probs.append(("graph-input", f"no graph input named {name!r}"))
+    elif gi["elem_type"] != W.ONNX_ENUM[d] or not gi["has_shape"] or gi["dims"] != shape:
+        probs.append(("graph-input", f"graph input {name!r} has element type {gi['elem_type']}, dims {gi['dims'] if gi['has_shape'] else 'absent'}; the default is {d} (= {W.ONNX_ENUM[d]}) {shape}"))
+    t = next((t for t in W.graph_parts(g)["initializers"] if t["name"] == name), None)
+    if t is None:
+        probs.append(("initializer", f"no initializer named {name!r}"))
+    else:
+        if t["dims"] != shape or t["data_type"] != W.ONNX_ENUM[d]:
+            probs.append(("initializer", f"initializer dims {t['dims']} type {t['data_type']}, the default is {d}{shape}"))
+        exp = _obs_array(arr)["data"]
+        got = t.get("words") if d != "str" else [list(x) for x in t.get("strs", [])]
+        if not (got == exp if d == "str" else same_words(d, got, exp)):
+            probs.append(("values", f"initializer elements {str(got)[:80]}, the default has {str(exp)[:80]}"))
+    return probs
+
+
+def run_argdef_oracle(ck):
+    n = 0
+    for route in ARGDEF_ROUTES:
+        for build in ("build", "with_arguments"):
+            for d in ARGDEF_DTYPES:
+                for shape in ARGDEF_SHAPES:
+                    case = {"kind": "argdef", "route": route, "build": build, "dtype": d, "shape": shape}
+                    n += 1
+                    ck.count(("argdef", route, build, d, tuple(shape)))
+                    try:
+                        probs = argdef_case(case)
+                    except Exception as e:  # noqa: BLE001
+                        UNOBSERVABLE.setdefault(f"argument-default oracle ({route})", f"{type(e).__name__}: {e}"[:200])
+                        continue
+                    for key, what in probs:
+                        if key == "unobservable":
+                            UNOBSERVABLE.setdefault(f"route {route}", what)
+                            continue
+                        rank = "0d" if not shape else "empty" if 0 in shape else "1elem" if numel(shape) == 1 else "nd"
+                        ck.failure(f"argdef:{route}:{rank}:{key}", f"{route}(x=<{d}{shape}>) via {build}: {what}", case)
+    ck.cov["argdef_oracle"] = {"cases": n}
+
+
 def _site_rows(sinfo):
     import collections
 
@@ -2025,6 +2113,8 @@ def run_site_case(synth, by, case):
     row = next((r for r in rows if r["param"] == case["param"]), None)
     if row is None:
         return ("skip", "the constructor attribute is not in the inventory any more")
+    if case["way"].startswith("mixed:"):
+        return S.run_mixed_case(synth, row, rows, case["way"].split(":", 1)[1])
     if row["cls"] in S.LIST_KIND:
         return S.run_list_case(synth, row, rows, case["way"])
     if row["cls"] == "AttrDtype":
@@ -2069,6 +2159,15 @@ def run_site_oracle(ck, sinfo):
             for way in ways:
                 cases.append({"kind": "attr_site", "level": "op", "mod": r["mod"], "ctor": r["ctor"], "param": r["param"],
                               "cls": r["cls"], "form": r["form"], "way": way})
+    # (c) mixed-opset programs: every attribute of the older modules next to a node of the newest one (the node is
+    #     version-adapted at build time), with the value equal to the schema default and with another value
+    for r in sinfo["rows"]:
+        if r["param"] and r["mod"] not in ("v21", "ml_v5") and (r["cls"] in S.LIST_KIND or r["cls"] in S.SCALAR_KIND or r["cls"] == "AttrDtype"):
+            for which in ("default", "other"):
+                if which == "other" and not ck.thorough and r["mod"] != "v17" and rng.random() < 0.5:
+                    continue
+                cases.append({"kind": "attr_site", "level": "op", "mod": r["mod"], "ctor": r["ctor"], "param": r["param"],
+                              "cls": r["cls"], "form": r["form"], "way": "mixed:" + which})
     stats = {"cases": 0, "skipped_way": 0, "rows_reached": set(), "rows_unreached": {}}
     import warnings
 
@@ -2083,6 +2182,8 @@ def run_site_oracle(ck, sinfo):
         if out is not None and out[0] == "skip":
             if out[1] == "way not applicable":
                 stats["skipped_way"] += 1
+            elif out[1].startswith("mixed build raises"):
+                stats["mixed_unbuildable"] = stats.get("mixed_unbuildable", 0) + 1
             else:
                 stats["rows_unreached"][".".join(map(str, rowkey))] = out[1][:90]
             continue
@@ -2160,6 +2261,10 @@ def run(ck: core.Check):
             ck.broken("correspondence", f"C10 {facet} not observable", f"{type(e).__name__}: {e}"[:300])
     run_oracle(ck)
     ck.log("oracle done")
+    try:
+        run_argdef_oracle(ck)
+    except Exception as e:  # noqa: BLE001
+        ck.broken("correspondence", "C10 argument-default oracle not runnable", f"{type(e).__name__}: {e}"[:300])
     try:
         run_site_oracle(ck, sinfo)
         ck.log("attribute-site oracle done")
@@ -2249,6 +2354,11 @@ def replay(ck: core.Check, doc) -> bool:
         for part, what in problems:
             print(f"{site.name}: {what}")
         return bool(problems)
+    if kind == "argdef":
+        probs = argdef_case(case)
+        for k, w in probs:
+            print(f"{k}: {w}")
+        return any(k != "unobservable" for k, _ in probs)
     if kind == "attr_site":
         from harness import lib_c10sites as S
         from translator import c10_attrsites
